@@ -617,6 +617,88 @@ MULTI += [('B.retry_saturating_add',
     '                break;\n'
     '            };')])]
 
+# ---- round 8: equivalent spellings around the rules added in round 8 --------------------------------------------------------------------
+MULTI += [
+ ("B.r8.clear_drain_full", ["C09", "C06", "C11"], "emitter/file/src/lib.rs", [
+   ("        self.bufs.clear();\n        self.remaining_bytes = 0;", "        self.bufs.drain(..);\n        self.remaining_bytes = 0;")]),
+ ("B.r8.clear_truncate_zero", ["C09"], "emitter/file/src/lib.rs", [
+   ("        self.bufs.clear();\n        self.remaining_bytes = 0;", "        self.bufs.truncate(0);\n        self.remaining_bytes = 0;")]),
+ ("B.r8.option_ctxt_as_mut", ["C03", "C04"], "core/src/ctxt.rs", [
+   ("""    fn exit(&self, frame: &mut Self::Frame) {
+        if let (Some(ctxt), Some(span)) = (self, frame) {
+            ctxt.exit(span)
+        }
+    }
+
+    fn close(&self, frame: Self::Frame) {
+        if let (Some(ctxt), Some(span)) = (self, frame) {""",
+    """    fn exit(&self, frame: &mut Self::Frame) {
+        if let Some(ctxt) = self.as_ref() {
+            if let Some(span) = frame.as_mut() {
+                ctxt.exit(span)
+            }
+        }
+    }
+
+    fn close(&self, frame: Self::Frame) {
+        if let (Some(ctxt), Some(span)) = (self, frame) {""")]),
+ ("B.r8.swap_reads_len", ["C03", "C04", "C19"], "src/platform/thread_local_ctxt.rs", [
+   ("""fn swap(id: usize, incoming: &mut ThreadLocalCtxtFrame) {
+    ACTIVE.with(|active| {
+        let mut active = active.borrow_mut();
+""", """fn swap(id: usize, incoming: &mut ThreadLocalCtxtFrame) {
+    ACTIVE.with(|active| {
+        let mut active = active.borrow_mut();
+        let _instances = active.len();
+""")]),
+ ("B.r8.emit_event_props_let", ["C01", "C16"], "src/macro_hooks.rs", [
+   ("    let event = event.map_props(|event_props| props.and_props(event_props));",
+    "    let event = event.map_props(|carried| {\n        let own = props;\n        own.and_props(carried)\n    });")]),
+ ("B.r8.tp_props_for_each_let", ["C18", "C02"], "traceparent/src/lib.rs", [
+   ("        self.ctxt.for_each(&mut for_each)?;\n", "        let own = self.ctxt.for_each(&mut for_each);\n        own?;\n")]),
+ ("B.r8.tokio_blocking_send_arms", ["C09", "C08"], "batcher/src/tokio.rs", [
+   ("        _ => sync::blocking_send(sender, msg, timeout),", "        Ok(_) => sync::blocking_send(sender, msg, timeout),\n        Err(_) => sync::blocking_send(sender, msg, timeout),")]),
+ ("B.r8.retention_pop_match", ["C08", "C11", "C10"], "emitter/file/src/lib.rs", [
+   ("""            let Some(file_name) = self.file_set.pop() else {
+                break;
+            };""", """            let file_name = match self.file_set.pop() {
+                Some(file_name) => file_name,
+                None => break,
+            };""")]),
+ ("B.r8.random_map", ["C04"], "src/span.rs", [
+   ("        Some(SpanId::new(NonZeroU64::new(rng.gen_u64()?)?))", "        NonZeroU64::new(rng.gen_u64()?).map(SpanId::new)")]),
+ ("B.r8.on_batch_retry_let", ["C10", "C07", "C11"], "emitter/file/src/lib.rs", [
+   ("""                        path,
+                        err,
+                    );
+
+                    return Err(emit_batcher::BatchError::retry(err, batch));""", """                        path,
+                        err,
+                    );
+
+                    let give_back = emit_batcher::BatchError::retry(err, batch);
+                    return Err(give_back);""")]),
+ ("B.r8.file_emit_buf_rename", ["C10", "C13"], "emitter/file/src/lib.rs", [
+   ("        let mut buf = FileBuf::new();\n", "        let fresh = FileBuf::new();\n        let mut buf = fresh;\n")]),
+ ("B.r8.traces_extent_then_tuple", ["C13", "C14"], "emitter/otlp/src/data/traces.rs", [
+   ("""        let (start_time_unix_nano, end_time_unix_nano) = evt
+            .extent()
+            .and_then(|extent| extent.as_range())
+            .map(|range| {
+                (
+                    range.start.to_unix().as_nanos() as u64,
+                    range.end.to_unix().as_nanos() as u64,
+                )
+            })?;""", """        let range = evt.extent().and_then(|extent| extent.as_range())?;
+        let (start_time_unix_nano, end_time_unix_nano) = (
+            range.start.to_unix().as_nanos() as u64,
+            range.end.to_unix().as_nanos() as u64,
+        );""")]),
+ ("B.r8.otlp_send_first_remove", ["C07", "C12", "C14"], "emitter/otlp/src/client.rs", [
+   ("                while let Some(batch) = channel.requests.last() {", "                while let Some(batch) = channel.requests.first() {"),
+   ("                            channel.requests.pop();", "                            channel.requests.remove(0);")]),
+]
+
 # Behaviour-preserving edits the checks are KNOWN to alarm on (documented limitation, DESIGN.md section 8): a step of a function that a
 # rule decides intraprocedurally is extracted into a helper function.  The rule no longer sees the step in the body it is phrased over and
 # fails closed.  Kept here so the limitation is measured, not hidden; run_benign reports them as ALARM-AS-DOCUMENTED.
